@@ -68,7 +68,7 @@ func runOnce(f *Factory, p *Program, names []string, choose func(k int, enabled 
 	sess := make([]*Session, len(p.Procs))
 
 	for g := range p.Procs {
-		s := &Session{Target: f.Target, FS: base.FS, NoIdm: base.NoIdm, NoSym: base.NoSym, NoRootList: base.NoRootList, Tmp: map[string]string{}}
+		s := &Session{Inline: true, Target: f.Target, FS: base.FS, NoIdm: base.NoIdm, NoSym: base.NoSym, NoRootList: base.NoRootList, Tmp: map[string]string{}}
 
 		if strings.HasPrefix(f.Target, "memfs") {
 			v, err := base.FS.Sub("/")
